@@ -490,7 +490,7 @@ func runCase(c *wk.Ctx, i int) {
 	r := c.Rand(i)
 	cmps := append(append([]comparer.Comparer{}, model.Comparers...), padInsensitive{})
 	ucmp := cmps[i%len(cmps)]
-	ntr := c.Pick(4200, 5300)
+	ntr := c.Pick(12000, 16000)
 	cr := &caseRun{c: c, i: i, r: r, ucmp: ucmp, icmp: leveldb.VerifInternalComparer(ucmp), n: map[string]int64{}}
 	cr.kg = model.NewKeyGen(r, 60+r.Intn(340))
 	c.Begin(i, fmt.Sprintf("comparer=%s triples=%d", ucmp.Name(), ntr))
